@@ -771,7 +771,11 @@ impl<'a> W<'a> {
         };
         let faulty = self.faulty() || self.rng.chance(1, 3);
         let u = dict::montgomery_wire(&mut self.rng, u_hon, faulty, &mut self.c);
-        match self.rng.below(7) {
+        match self.rng.below(8) {
+            7 => {
+                let s = dict::scalar(&mut self.rng, true, &mut self.c);
+                self.emit(Step::MBase { s });
+            }
             0 => {
                 let k = self.rng.arr32();
                 self.emit(Step::XRaw { k: B(k.to_vec()), u: B(u.to_vec()) });
